@@ -59,7 +59,8 @@ func solveAll(results []*FuncResult, quickMs, fullMs int) {
 		}
 	}
 	// (more than a dozen undecided obligations is not timing noise; re-trying them only delays the report)
-	if len(retry) == 0 || len(retry) > 12 || os.Getenv("GVC_SURVEY") != "" {
+	// (GVC_NORETRY: must-fail runs on deliberately broken copies only want to know WHETHER something fails)
+	if len(retry) == 0 || len(retry) > 12 || os.Getenv("GVC_SURVEY") != "" || os.Getenv("GVC_NORETRY") != "" {
 		return
 	}
 	sem2 := make(chan struct{}, 6)
